@@ -234,10 +234,10 @@ class AffIdx(Value):
     """integer vector  base + q*stride  for q in [0, count)"""
 
     def __init__(self, base, stride, count):
-        self.base, self.stride, self.count = base, stride, count
+        self.base, self.stride, self.count = simp(base), simp(stride), simp(count)
 
     def at(self, q):
-        return zi(self.base) + zi(q) * zi(self.stride)
+        return simp(zi(self.base) + zi(q) * zi(self.stride))
 
     def py_binop(self, interp, op, other, refl):
         if not is_intlike(other):
@@ -279,15 +279,32 @@ class AtIdx(Value):
         v = to_real(value)
         n = zi(a.length)
 
+        from pyvc.values import known
+        nonneg = known(z3.And(zi(idx.base) >= 0, zi(idx.stride) >= 0)) is True     # then idx(q) >= 0 for q >= 0
+
+        def pred(q, f):
+            raw = idx.at(q)
+            # negative indices wrap once; what is still out of range is dropped (only in-range f are asked about)
+            norm = raw if nonneg else z3.If(raw < 0, raw + n, raw)
+            return z3.And(zi(q) >= 0, zi(q) < zi(idx.count), norm == f)
+
         def member(f):
             q = fresh_int('q')
-            raw = idx.at(q)
-            norm = z3.If(raw < 0, raw + n, raw)          # negative indices wrap once; the rest is dropped
-            return z3.Exists([q], z3.And(q >= 0, q < zi(idx.count), norm == f))
+            return z3.Exists([q], pred(q, f))
+
+        def member_rc(r, c, w):
+            """`some q has idx(q) = r*w + c`, quantifier-free: q* is a fresh constant standing for a witness if there
+            is one (Hilbert choice), so the statement is pred(q*); of the defining axiom  forall q. pred(q) -> pred(q*)
+            only the instances q = r and q = c are added (fewer hypotheses: proofs stay valid)."""
+            f = zi(r) * zi(w) + zi(c)
+            qs = fresh_int('qstar')
+            for cand in (zi(r), zi(c)):
+                interp.run.assume(z3.Implies(pred(cand, f), pred(qs, f)))
+            return pred(qs, f)
 
         return Arr(a.length, a.dtype,
                    elem=lambda f: z3.If(member(zi(f)), v, a.elem(f)),
-                   elem_rc=lambda r, c, w: z3.If(member(zi(r) * zi(w) + zi(c)), v, a.elem_rc(r, c, w)))
+                   elem_rc=lambda r, c, w: z3.If(member_rc(r, c, w), v, a.elem_rc(r, c, w)))
 
 
 # ---------------------------------------------------------------------------------------------- spectra
@@ -395,14 +412,16 @@ class BlockDiag(Value):
 
 
 # ---------------------------------------------------------------------------------------------- comparisons
-def arr_eq_goals(a: Arr, b: Arr, rc_width=None):
-    """pointwise equality of two arrays at fresh (Skolem) positions; list of (tag, goal)"""
-    out = [('length', zi(a.length) == zi(b.length)), ('dtype', a.dtype == b.dtype)]
+def arr_eq_goals(a: Arr, b: Arr, rc=None):
+    """pointwise equality of two arrays at fresh (Skolem) positions; list of (tag, goal).
+    rc=(rows, width): compare in the row-major (r, c) coordinates of a rows x width view (length = rows*width)"""
+    out = [('length', simp(zi(a.length) == zi(b.length))), ('dtype', simp(a.dtype == b.dtype))]
     n = zi(a.length)
-    if rc_width is not None:
+    if rc is not None:
         r, c = fresh_int('r'), fresh_int('c')
-        w = zi(rc_width)
-        out.append(('elements', z3.Implies(z3.And(0 <= r, 0 <= c, c < w, r * w + c < n),
+        rows, w = zi(rc[0]), zi(rc[1])
+        out.append(('view', simp(n == rows * w)))
+        out.append(('elements', z3.Implies(z3.And(0 <= r, r < rows, 0 <= c, c < w),
                                            a.elem_rc(r, c, w) == b.elem_rc(r, c, w))))
         return out
     t = fresh_int('t')
@@ -505,7 +524,6 @@ def install(T: Theory):
     def _ifft(interp, p):
         if not isinstance(p, SpecProd):
             raise Unsupported('ifft of something other than fft(a) * fft(k, N)')
-        interp.used_externals.add('lemma:LA8 DFT convolution theorem')
         return Ifft(p)
 
     def _clamped_start(interp, tag, start, m, n):
